@@ -177,6 +177,15 @@ CLAIMED = {
         'technique': 'contract-based deductive verification (Verus) of extracted real code (renaming apart) + bounded metamorphic comparison on random programs',
         'design_ref': 'DESIGN.md 8.27',
     },
+    'C23': {
+        'text': 'PARTIAL.  Deductive proof (Verus) on the verbatim bodies of solve and solve_all of the reporting discipline around the stop flag, with the flag as an oracle: it is read after every search step and before that step\'s result is looked at, '
+                'and a result is used only when the flag was found clear - so an answer or a "no more" computed while the query was being stopped is never reported, and the list of solve_all is a prefix of the answers obtained with the flag clear, '
+                'followed by the time-out message only when the flag was found raised. The timer armed by a call is cancelled on every path out (C22). '
+                'NOT DECIDED: that the flag is raised only when the limit was exceeded, and that a search finishing well within the limit is never reported as timed out - these involve the timer thread and wall-clock time, which neither verifier models.',
+        'note': 'Half of the statement (timing, the race between cancel_timer and the timer thread) is outside reach and is not claimed. Trusted: heap model (T8), the stubs of start_query_timer / cancel_timer / query_stopped (the latter returns an arbitrary boolean).',
+        'technique': 'contract-based deductive verification (Verus) of extracted real code (reporting discipline, stop flag as an oracle)',
+        'design_ref': 'DESIGN.md 8.32',
+    },
     'C04': {
         'text': 'PARTIAL.  Deductive proof (Verus) on the verbatim bodies of format_for_print_pred and next_solution_print (unit print) and of next_solution_bip (unit solver): '
                 'the text of print is its first argument with the `%s` markers replaced left to right by the later arguments (left-over arguments follow one another - concatenation when there is no marker -, left-over markers vanish), '
@@ -248,6 +257,5 @@ NOT_APPLICABLE = {
     'C20': 'equality of five parsing contexts on all strings: same obstacle as C19',
     'C21': 'not yet built in this session',
     'C22': 'not yet built in this session',
-    'C23': 'depends on a real timer thread racing the search and on wall-clock time; Kani has no threads, Verus no time',
     'C24': 'aliasing-model UB (Stacked/Tree Borrows) and data races are invisible to both verifiers; Miri territory, a different family',
 }
